@@ -266,7 +266,7 @@ def py_sorted_sym(ctx, it, **kw):
     ctx.assume(qforall(1, lambda j: z3.Implies(z3.And(0 <= j, j < n), z3.And(0 <= sigma(j), sigma(j) < n, sinv(sigma(j)) == j))))
     ctx.assume(qforall(1, lambda e: z3.Implies(z3.And(0 <= e, e < n), z3.And(0 <= sinv(e), sinv(e) < n, sigma(sinv(e)) == e))))
     out = SymSeq(n, lambda j: it.at(sigma(j)), 'sorted')
-    out.sigma = sigma
+    out.sigma, out.sigma_inv = sigma, sinv
     return out
 
 
